@@ -334,8 +334,11 @@ def print_assumptions(prop_id, prop_file):
     return ok, res, out
 
 
-def coq_eval(tag, imports, exprs, timeout=1200, shard=None, preamble=''):
-    """Evaluate Gallina expressions with vm_compute inside Coq; returns parsed terms (same order)."""
+def coq_eval(tag, imports, exprs, timeout=1200, shard=None, preamble='', tolerate=False):
+    """Evaluate Gallina expressions with vm_compute inside Coq; returns parsed terms (same order).
+    With tolerate=True an expression Coq rejects (ill-typed / unparsable - e.g. an implementation observation that is
+    outside the observation type, pasted into the oracle) yields ('app', 'EvalError', []) instead of a machinery error;
+    the expressions around it are still evaluated (the file is re-run from the expression after the rejected one)."""
     if not exprs:
         return []
     d = os.path.join(BUILD, 'cases', tag)
@@ -346,24 +349,45 @@ def coq_eval(tag, imports, exprs, timeout=1200, shard=None, preamble=''):
     shards = [exprs[i:i + shard] for i in range(0, len(exprs), shard)]
     head = ('From Coq Require Import ZArith List String.\nImport ListNotations.\n%s\nOpen Scope Z_scope.\n'
             'Set Printing Width 100000.\nSet Printing Depth 100000.\n%s\n' % (imports, preamble))
+    nhead = head.count('\n')
 
-    def run(i):
-        f = os.path.join(d, 'cases_%d.v' % i)
-        with open(f, 'w') as fh:
-            fh.write(head)
-            for e in shards[i]:
-                fh.write('Eval vm_compute in (%s).\n' % e)
-        rc, out = sh(['coqc', '-noglob', '-Q', COQ, 'V', f], cwd=d, timeout=timeout)
-        if rc != 0:
-            raise MachineryError('coqc failed on %s:\n%s' % (f, out[-3000:]))
-        items = re.split(r'(?m)^\s*= ', out)[1:]
-        if len(items) != len(shards[i]):
-            raise MachineryError('coq answered %d of %d in %s' % (len(items), len(shards[i]), f))
+    def parse_items(out):
         res = []
-        for it in items:
+        for it in re.split(r'(?m)^\s*= ', out)[1:]:
             k = it.rfind('\n     : ')
             body = it[:k] if k >= 0 else it
-            res.append(term.parse(body))
+            res.append(body)
+        return res
+
+    def run(i):
+        todo = list(shards[i])
+        res = []
+        attempt = 0
+        while todo:
+            f = os.path.join(d, 'cases_%d%s.v' % (i, '' if attempt == 0 else '_r%d' % attempt))
+            with open(f, 'w') as fh:
+                fh.write(head)
+                for e in todo:
+                    fh.write('Eval vm_compute in (%s).\n' % e.replace('\n', ' '))
+            rc, out = sh(['coqc', '-noglob', '-Q', COQ, 'V', f], cwd=d, timeout=timeout)
+            if rc == 0:
+                items = parse_items(out)
+                if len(items) != len(todo):
+                    raise MachineryError('coq answered %d of %d in %s' % (len(items), len(todo), f))
+                res += [term.parse(b) for b in items]
+                break
+            m = re.search(r'File "[^"]*", line (\d+)', out)
+            if not tolerate or not m or attempt >= 60:
+                raise MachineryError('coqc failed on %s:\n%s' % (f, out[-3000:]))
+            bad = int(m.group(1)) - nhead - 1          # index in todo of the rejected expression
+            if not (0 <= bad < len(todo)):
+                raise MachineryError('coqc failed on %s (outside the cases):\n%s' % (f, out[-3000:]))
+            items = parse_items(out[:m.start()])
+            if len(items) < bad:
+                raise MachineryError('coq answered %d before failing at %d in %s' % (len(items), bad, f))
+            res += [term.parse(b) for b in items[:bad]] + [('app', 'EvalError', [])]
+            todo = todo[bad + 1:]
+            attempt += 1
         return res
 
     with cf.ThreadPoolExecutor(max_workers=NCPU) as ex:
